@@ -126,7 +126,7 @@ pub fn run_check(prop: &str, tier: &str) -> i32 {
         }
         "C02" => {
             let s = suites::crash_suites(thorough);
-            let plan = crashprops::CrashPlan { crash: true, layout_tag: "C10", nest: 0, reopen_cycles: 0, sector_tear: true, layout: false, probe_auto_ts: false };
+            let plan = crashprops::CrashPlan { crash: true, layout_tag: "C10", nest: 0, reopen_cycles: 0, sector_tear: true, layout: false, probe_auto_ts: false, continue_after: true };
             crashprops::crash_check(prop, s, &["C02", "C11"], plan, budget * 0.6, &mut report);
             // one history with a >507-extent batch: torn multi-block journal writes
             bigbatch::run(&["C02", "C03"], &mut report);
@@ -137,16 +137,16 @@ pub fn run_check(prop: &str, tier: &str) -> i32 {
         }
         "C03" => {
             let s = suites::crash_suites(thorough);
-            let plan = crashprops::CrashPlan { crash: true, layout_tag: "C10", nest: 0, reopen_cycles: 0, sector_tear: true, layout: false, probe_auto_ts: false };
+            let plan = crashprops::CrashPlan { crash: true, layout_tag: "C10", nest: 0, reopen_cycles: 0, sector_tear: true, layout: false, probe_auto_ts: false, continue_after: false };
             crashprops::crash_check(prop, s, &["C03"], plan, budget * 0.65, &mut report);
             // a crash inside recovery's own repair writes is a crash instant too: nested images
             let s = suites::crash_suites(thorough);
-            let plan = crashprops::CrashPlan { crash: true, layout_tag: "C10", nest: if thorough { 2 } else { 1 }, reopen_cycles: 0, sector_tear: false, layout: false, probe_auto_ts: false };
+            let plan = crashprops::CrashPlan { crash: true, layout_tag: "C10", nest: if thorough { 2 } else { 1 }, reopen_cycles: 0, sector_tear: false, layout: false, probe_auto_ts: false, continue_after: false };
             crashprops::crash_check(prop, s, &["C03"], plan, budget * 0.35, &mut report);
         }
         "C04" => {
             let s = suites::crash_suites(thorough);
-            let plan = crashprops::CrashPlan { crash: true, layout_tag: "C10", nest: if thorough { 2 } else { 1 }, reopen_cycles: if thorough { 2 } else { 1 }, sector_tear: false, layout: false, probe_auto_ts: false };
+            let plan = crashprops::CrashPlan { crash: true, layout_tag: "C10", nest: if thorough { 2 } else { 1 }, reopen_cycles: if thorough { 2 } else { 1 }, sector_tear: false, layout: false, probe_auto_ts: false, continue_after: false };
             crashprops::crash_check(prop, s, &["C04"], plan, budget * 0.9, &mut report);
             // recovery that needs more than one journal record for its own retirements
             bigrecovery::run(&["C04"], &mut report);
@@ -154,11 +154,11 @@ pub fn run_check(prop: &str, tier: &str) -> i32 {
         "C05" => {
             // (1) deep histories, partition + independent-reader check at every acknowledged flush
             let mut deep = suites::partition_suites(thorough);
-            let plan = crashprops::CrashPlan { crash: false, layout_tag: "C05", nest: 0, reopen_cycles: 0, sector_tear: false, layout: true, probe_auto_ts: false };
+            let plan = crashprops::CrashPlan { crash: false, layout_tag: "C05", nest: 0, reopen_cycles: 0, sector_tear: false, layout: true, probe_auto_ts: false, continue_after: false };
             crashprops::crash_check(prop, std::mem::take(&mut deep), &["C05"], plan, budget * 0.5, &mut report);
             // (2) the same invariants on every store recovered from a crash image
             let s = suites::crash_suites(thorough);
-            let plan = crashprops::CrashPlan { crash: true, layout_tag: "C05", nest: 0, reopen_cycles: 0, sector_tear: false, layout: true, probe_auto_ts: false };
+            let plan = crashprops::CrashPlan { crash: true, layout_tag: "C05", nest: 0, reopen_cycles: 0, sector_tear: false, layout: true, probe_auto_ts: false, continue_after: false };
             crashprops::crash_check(prop, s, &["C05"], plan, budget * 0.35, &mut report);
             // (3) the partition at quiescence after every schedule of the reader/writer/flush/reuse programs
             schedprops::run_programs(c08::programs(false), 1, 4000, budget * 0.15, &schedprops::judge_linearizable, None, &["C05"], &mut report);
@@ -209,7 +209,7 @@ pub fn run_check(prop: &str, tier: &str) -> i32 {
         }
         "C10" => {
             let deep = suites::layout_suites(thorough);
-            let plan = crashprops::CrashPlan { crash: false, layout_tag: "C10", nest: 0, reopen_cycles: 0, sector_tear: false, layout: true, probe_auto_ts: false };
+            let plan = crashprops::CrashPlan { crash: false, layout_tag: "C10", nest: 0, reopen_cycles: 0, sector_tear: false, layout: true, probe_auto_ts: false, continue_after: false };
             crashprops::crash_check(prop, deep, &["C10"], plan, budget, &mut report);
             c10::run(&mut report);
         }
@@ -247,7 +247,7 @@ pub fn run_check(prop: &str, tier: &str) -> i32 {
             schedprops::run_programs(concprogs::sweep_programs(thorough), bound, 3000, budget * 0.25, &schedprops::judge_linearizable, None, &["C11", "C07", "C13", "C14"], &mut report);
             // crash between the TTL write and its flush, reopened with TTL on
             let cs: Vec<Suite> = suites::crash_suites(thorough).into_iter().filter(|s| s.name == "crash-ttl-v3" || s.name.starts_with("crash-ttl-reuse")).collect();
-            let plan = crashprops::CrashPlan { crash: true, layout_tag: "C10", nest: 0, reopen_cycles: 0, sector_tear: false, layout: false, probe_auto_ts: false };
+            let plan = crashprops::CrashPlan { crash: true, layout_tag: "C10", nest: 0, reopen_cycles: 0, sector_tear: false, layout: false, probe_auto_ts: false, continue_after: false };
             crashprops::crash_check(prop, cs, &["C11", "C02", "C03"], plan, budget * 0.25, &mut report);
             // recovery interrupted between two of its own retirement transactions (> 1024 extents)
             bigrecovery::run(&["C11"], &mut report);
@@ -257,7 +257,7 @@ pub fn run_check(prop: &str, tier: &str) -> i32 {
             seq_check(prop, tier, s, &["C12"], budget * 0.6, &mut report);
             // automatic timestamps after *crash* recovery: every recovered key accepts an automatic write
             let cs: Vec<Suite> = suites::crash_suites(thorough).into_iter().filter(|s| ["crash-core-v3", "crash-core-v2", "crash-edge-v1", "crash-ttl-v3"].contains(&s.name.as_str())).collect();
-            let plan = crashprops::CrashPlan { crash: true, layout_tag: "C10", nest: 0, reopen_cycles: 0, sector_tear: false, layout: false, probe_auto_ts: true };
+            let plan = crashprops::CrashPlan { crash: true, layout_tag: "C10", nest: 0, reopen_cycles: 0, sector_tear: false, layout: false, probe_auto_ts: true, continue_after: false };
             crashprops::crash_check(prop, cs, &["C12"], plan, budget * 0.4, &mut report);
         }
         "C13" => {
@@ -265,7 +265,7 @@ pub fn run_check(prop: &str, tier: &str) -> i32 {
             seq_check(prop, tier, s, &["C13"], budget * 0.6, &mut report);
             // accounting right after recovery from every crash image
             let cs: Vec<Suite> = suites::crash_suites(thorough).into_iter().filter(|s| ["crash-core-v3", "crash-small-v3", "crash-ttl-v3"].contains(&s.name.as_str())).collect();
-            let plan = crashprops::CrashPlan { crash: true, layout_tag: "C10", nest: 0, reopen_cycles: 0, sector_tear: false, layout: false, probe_auto_ts: false };
+            let plan = crashprops::CrashPlan { crash: true, layout_tag: "C10", nest: 0, reopen_cycles: 0, sector_tear: false, layout: false, probe_auto_ts: false, continue_after: false };
             crashprops::crash_check(prop, cs, &["C13"], plan, budget * 0.2, &mut report);
             // concurrent creators / growers / deleters against a limit admitting only some
             let bound = if thorough { 3 } else { 2 };
@@ -391,7 +391,7 @@ pub fn crash_suite_cmd(name: &str, depth: usize, seconds: f64) -> i32 {
     s.depth = depth;
     let mut report = Report::new("debug", "quick", "model_checking");
     let nest = std::env::var("VERIF_NEST").ok().and_then(|v| v.parse().ok()).unwrap_or(0);
-    let plan = crashprops::CrashPlan { crash: true, layout_tag: "C10", nest, reopen_cycles: 0, sector_tear: false, layout: false, probe_auto_ts: false };
+    let plan = crashprops::CrashPlan { crash: true, layout_tag: "C10", nest, reopen_cycles: 0, sector_tear: false, layout: false, probe_auto_ts: false, continue_after: false };
     crashprops::crash_check("debug", vec![s], &["C01", "C02", "C03", "C04", "C05", "C11", "C12", "C13", "C14"], plan, seconds, &mut report);
     println!("{}", serde_json::to_string(&report.coverage["suites"]).unwrap_or_default());
     let only = std::env::var("VERIF_ONLY_TAG").unwrap_or_default();
